@@ -199,6 +199,9 @@ Section Store.
     | st :: steps' => match do_step h y st with Some y' => run h y' steps' | None => None end
     end.
 End Store.
+Arguments sy_db {K} _.
+Arguments sy_saved {K} _.
+Arguments sy_trace {K} _.
 
 (* ---------------------------------------------------------------- the specification: a per-key map *)
 
